@@ -46,8 +46,8 @@ def keyof(i):
 
 
 def bounds(tier):
-    return {'indices': [0, 1, 3] if tier == 'quick' else [0, 1, 3, 6], 'mapper_depth': 8 if tier == 'quick' else 10,
-            'manager_depth': 6 if tier == 'quick' else 7, 'typed_stores': 'fixpoint'}
+    return {'indices': [0, 1, 3] if tier == 'quick' else [0, 1, 3, 6], 'mapper_depth': 8 if tier == 'quick' else 11,
+            'manager_depth': 6 if tier == 'quick' else 8, 'typed_stores': 'fixpoint'}
 
 
 def units(tier):
@@ -56,9 +56,9 @@ def units(tier):
     for t in TYPES:
         for dflt in (False, True):
             out.append({'kind': 'typed', 'type': t, 'default': dflt, 'indices': idx, 'nvalues': 3})
-    out.append({'kind': 'mapper', 'indices': [0, 3], 'depth': 8 if tier == 'quick' else 10})
-    out.append({'kind': 'mapper', 'indices': [1, 0], 'depth': 7 if tier == 'quick' else 9})
-    out.append({'kind': 'manager', 'depth': 6 if tier == 'quick' else 7})
+    out.append({'kind': 'mapper', 'indices': [0, 3], 'depth': 8 if tier == 'quick' else 11})
+    out.append({'kind': 'mapper', 'indices': [1, 0], 'depth': 7 if tier == 'quick' else 10})
+    out.append({'kind': 'manager', 'depth': 6 if tier == 'quick' else 8})
     return out
 
 
